@@ -53,9 +53,11 @@ struct Run : ContBase {
         qlist_t *li = inner();
         errno = poison;
         if (!asstring) {
-            size_t sz = 12345; void *p = kind == 3 ? qgrow_toarray(g, &sz) : qlist_toarray(li, &sz);
+            bool nosz = s.chance(1, 6);                       // the size out-parameter is optional ("if not NULL")
+            size_t sz = 12345, *szp = nosz ? nullptr : &sz; void *p = kind == 3 ? qgrow_toarray(g, szp) : qlist_toarray(li, szp);
             int e = errno;
-            c.op("toarray() n=%zu", m.size());
+            c.op("toarray(%s) n=%zu", nosz ? "size=NULL" : "", m.size());
+            if (nosz) { sz = 0; for (auto &x : m) sz += x.size(); c.tag("null_size_outparam"); }
             if (m.empty()) { if (p || sz != 0) c.fail(FUNC, "list:toarray-empty", "toarray on an empty list returned data/size %zu", sz); if (e != ENOENT) c.fail(FUNC, "list:toarray-errno", "toarray on empty list: errno=%d", e); return; }
             std::string want; for (auto &x : m) want += x;
             if (!p || sz != want.size() || memcmp(p, want.data(), sz) != 0) c.fail(FUNC, "list:toarray", "toarray() returned %zu bytes that are not the concatenation of the %zu elements (%zu bytes)", sz, m.size(), want.size());
@@ -102,12 +104,14 @@ struct Run : ContBase {
         long idx = api == 0 ? 0 : api == 1 ? -1 : gen_index();
         bool newmem = s.boolean();
         long n = (long)m.size(); long pos = idx < 0 ? n + idx : idx;
-        size_t sz = 4242;
+        bool nosz = s.chance(1, 6);
+        size_t sz = 4242, *szp = nosz ? nullptr : &sz;
         errno = poison;
-        void *p = api == 0 ? qlist_getfirst(l, &sz, newmem) : api == 1 ? qlist_getlast(l, &sz, newmem) : qlist_getat(l, (int)idx, &sz, newmem);
+        void *p = api == 0 ? qlist_getfirst(l, szp, newmem) : api == 1 ? qlist_getlast(l, szp, newmem) : qlist_getat(l, (int)idx, szp, newmem);
         int e = errno;
-        c.op("%s(%ld,newmem=%d) n=%ld", api == 0 ? "getfirst" : api == 1 ? "getlast" : "getat", idx, (int)newmem, n);
+        c.op("%s(%ld,newmem=%d%s) n=%ld", api == 0 ? "getfirst" : api == 1 ? "getlast" : "getat", idx, (int)newmem, nosz ? ",size=NULL" : "", n);
         bool valid = pos >= 0 && pos < n;
+        if (nosz && valid) { sz = m[pos].size(); c.tag("null_size_outparam"); }
         seei(p != nullptr);
         if (!valid) { if (p) c.fail(FUNC, "list:get-range", "get at index %ld with %ld elements returned data", idx, n); if (e != ERANGE) c.fail(FUNC, "list:get-errno", "out-of-range get: errno=%d, expected ERANGE", e); if (pos == -1 || pos == n) nt++; return; }
         if (!p || sz != m[pos].size() || memcmp(p, m[pos].data(), sz) != 0) c.fail(FUNC, "list:get", "get at index %ld (position %ld of %ld) returned %s, expected %s", idx, pos, n, p ? hexs(p, sz, 12).c_str() : "NULL", hexs(m[pos], 12).c_str());
@@ -120,11 +124,13 @@ struct Run : ContBase {
         long idx = api == 0 ? 0 : api == 1 ? -1 : gen_index();
         long n = (long)m.size(); long pos = idx < 0 ? n + idx : idx;
         bool valid = pos >= 0 && pos < n;
-        size_t sz = 4242; void *p = nullptr; bool ok = false;
+        bool nosz = pop && s.chance(1, 6);
+        size_t sz = 4242, *szp = nosz ? nullptr : &sz; void *p = nullptr; bool ok = false;
         errno = poison;
-        if (pop) { p = api == 0 ? qlist_popfirst(l, &sz) : api == 1 ? qlist_poplast(l, &sz) : qlist_popat(l, (int)idx, &sz); ok = p != nullptr; }
+        if (pop) { p = api == 0 ? qlist_popfirst(l, szp) : api == 1 ? qlist_poplast(l, szp) : qlist_popat(l, (int)idx, szp); ok = p != nullptr; }
         else ok = api == 0 ? qlist_removefirst(l) : api == 1 ? qlist_removelast(l) : qlist_removeat(l, (int)idx);
         int e = errno;
+        if (nosz && valid) { sz = m[pos].size(); c.tag("null_size_outparam"); }
         c.op("%s%s(%ld) n=%ld", pop ? "pop" : "remove", api == 0 ? "first" : api == 1 ? "last" : "at", idx, n);
         seei(ok);
         if (ok != valid) c.fail(FUNC, "list:remove-result", "%s at index %ld with %ld elements returned %d, expected %d", pop ? "pop" : "remove", idx, n, (int)ok, (int)valid);
@@ -187,18 +193,20 @@ struct Run : ContBase {
         bool pop = s.boolean();
         int api = (int)s.pick({3, 2, 2, 3});        // plain, str, int, at
         long n = (long)m.size();
-        if (api == 1 && (m.empty() || m.front().back() != '\0')) api = 0;
+        if (api == 1 && !m.empty() && m.front().back() != '\0') api = 0;      // popstr/getstr on an empty queue/stack: NULL
         if (api == 2 && (!m.empty() && m.front().size() != 8)) api = 0;
         long idx = api == 3 ? gen_index() : 0;
         long pos = idx < 0 ? n + idx : idx;
         bool valid = pos >= 0 && pos < n;
         bool newmem = s.boolean();
-        size_t sz = 777; void *p = nullptr; int64_t iv = 0;
+        bool nosz = (api == 0 || api == 3) && s.chance(1, 6);
+        size_t sz = 777, *szp = nosz ? nullptr : &sz; void *p = nullptr; int64_t iv = 0;
+        if (nosz && valid) { sz = m[pos].size(); c.tag("null_size_outparam"); }
         errno = poison;
-        if (api == 0) p = pop ? (kind == 1 ? qqueue_pop(q, &sz) : qstack_pop(st, &sz)) : (kind == 1 ? qqueue_get(q, &sz, newmem) : qstack_get(st, &sz, newmem));
+        if (api == 0) p = pop ? (kind == 1 ? qqueue_pop(q, szp) : qstack_pop(st, szp)) : (kind == 1 ? qqueue_get(q, szp, newmem) : qstack_get(st, szp, newmem));
         else if (api == 1) { p = pop ? (void *)(kind == 1 ? qqueue_popstr(q) : qstack_popstr(st)) : (void *)(kind == 1 ? qqueue_getstr(q) : qstack_getstr(st)); newmem = true; }
         else if (api == 2) iv = pop ? (kind == 1 ? qqueue_popint(q) : qstack_popint(st)) : (kind == 1 ? qqueue_getint(q) : qstack_getint(st));
-        else p = pop ? (kind == 1 ? qqueue_popat(q, (int)idx, &sz) : qstack_popat(st, (int)idx, &sz)) : (kind == 1 ? qqueue_getat(q, (int)idx, &sz, newmem) : qstack_getat(st, (int)idx, &sz, newmem));
+        else p = pop ? (kind == 1 ? qqueue_popat(q, (int)idx, szp) : qstack_popat(st, (int)idx, szp)) : (kind == 1 ? qqueue_getat(q, (int)idx, szp, newmem) : qstack_getat(st, (int)idx, szp, newmem));
         c.op("%s%s(%ld%s) n=%ld", pop ? "pop" : "get", api == 0 ? "" : api == 1 ? "str" : api == 2 ? "int" : "at", idx, pop ? "" : newmem ? ",newmem=1" : ",newmem=0", n);
         if (api == 2) {
             int64_t want = 0; if (valid) memcpy(&want, m[pos].data(), 8);
